@@ -22,7 +22,7 @@ pub fn check(tier: Tier) -> Check {
     parts.push(Part::new("C07/fields", json!({}), 0, tier.pick(20, 60)));
     // QoS 2 messages over two identifiers that are released (PUBREL) in any order and used again
     parts.push(Part::new("C07/dispatch", json!({"depth": tier.pick(7, 8), "rel": true}), 0, tier.pick(40, 400)));
-    parts.push(Part::new("C07/dispatch", json!({"depth": tier.pick(5, 6), "flavour": 1}), 0, tier.pick(30, 400)));
+    parts.push(Part::new("C07/dispatch", json!({"depth": tier.pick(5, 6), "flavour": 1, "own_rm": 20}), 0, tier.pick(30, 400)));
     // identifier flavour: the counters start next to a boundary of their encodings (DESIGN 4)
     parts.push(Part::new("C07/dispatch", json!({"depth": tier.pick(5, 6), "ids": [255, 127]}), 0, tier.pick(30, 400)));
     parts.push(Part::new("C07/dispatch", json!({"depth": tier.pick(5, 6), "ids": [65535, 16383]}), 0, tier.pick(30, 400)));
@@ -38,7 +38,7 @@ pub fn check(tier: Tier) -> Check {
     parts.push(Part::new("C07/rolling", json!({"rounds": tier.pick(14, 40)}), 0, 120));
     // value flavour (DESIGN 4): the same exploration with requests / inbound messages of unusual content
     parts.push(Part::new("C07/dispatch", json!({"depth": tier.pick(5, 6), "vals": 1}), tier.pick(0, 1), tier.pick(30, 400)));
-    parts.push(Part::new("C07/dispatch", json!({"depth": tier.pick(5, 6), "vals": 1, "flavour": 1}), 0, tier.pick(30, 400)));
+    parts.push(Part::new("C07/dispatch", json!({"depth": tier.pick(5, 6), "vals": 1, "flavour": 1, "own_rm": 20}), 0, tier.pick(30, 400)));
     Check {
         also_rel: false,
         property: "C07",
